@@ -12,7 +12,9 @@ def _rng(seed, salt):
 
 
 def scalar_vals(rng):
-    return [0, 1, 2, 3, N - 1, N - 2, 2**255, 2**255 + 1, 2**254, 2**256 % N, 2**128, 2**64, 2**64 - 1, 2**192, 2**128 + 5, 3 * 2**192 + 2**7, (N - 1) // 2] + [rng.randrange(N) for _ in range(6)]
+    Ri = pow(R, -1, N)
+    sparse = [sp * Ri % N for sp in (1, 2**64 - 1, 2**64, 2**128, 2**191, 5 * 2**64 + 3, 2**63)]   # scalars whose MONTGOMERY form is short / sparse
+    return sparse + [0, 1, 2, 3, N - 1, N - 2, 2**255, 2**255 + 1, 2**254, 2**256 % N, 2**128, 2**64, 2**64 - 1, 2**192, 2**128 + 5, 3 * 2**192 + 2**7, (N - 1) // 2] + [rng.randrange(N) for _ in range(6)]
 
 
 def cases_for(pid, seed):
@@ -90,6 +92,14 @@ def cases_for(pid, seed):
     return []
 
 
+def first_oversize(pid, seed):
+    rng = _rng(seed, 77)
+    rb = lambda n: ''.join('%02x' % rng.getrandbits(8) for _ in range(n))
+    if pid == 'C08':
+        return [{'kind': 'h2c', 'op': 'RO', 'a': rb(3), 'b': rb(300)}]
+    return [{'kind': 'h2s', 'a': rb(3), 'b': rb(300)}]
+
+
 def run(pid, tier, seed, err):
     t0 = time.time()
     cases = cases_for(pid, seed)
@@ -116,6 +126,13 @@ def run(pid, tier, seed, err):
             inst, extra, _ = instr.instrument_field()
         try:
             ok, out = core.go_test(path, pkg='field' if pid == 'C12' else 'root', race=(pid == 'C16'), extra_overlay=extra, timeout=900)
+            if ok and pid in ('C08', 'C09'):
+                # process-wide state: a fresh process whose FIRST hashing call uses an oversize DST
+                path2 = path.replace('.json', '_oversize_first.json')
+                json.dump({'property': pid, 'cases': first_oversize(pid, seed) + cases}, open(path2, 'w'), indent=1)
+                ok, out = core.go_test(path2, timeout=900)
+                if not ok:
+                    path = path2
         finally:
             if inst:
                 from vf import instr
